@@ -75,8 +75,11 @@ pub fn select_menu(thorough: bool, sqlite_only: bool) -> Vec<SelOp> {
     }
     let items = pool_items();
     let n_items = if thorough { items.len() } else { 9 };
-    for x in items.iter().take(n_items) {
-        m.push(SelOp::Item(Item::Expr(x.clone(), None)));
+    for (i, x) in items.iter().enumerate() {
+        // the quick menu: the first nine and every function the backends spell differently
+        if i < n_items || matches!(x, XS::Func(FuncK::Greatest | FuncK::Least | FuncK::CharLength, _)) {
+            m.push(SelOp::Item(Item::Expr(x.clone(), None)));
+        }
     }
     m.push(SelOp::Item(Item::Expr(items[0].clone(), Some("x"))));
     m.push(SelOp::Item(Item::Expr(XS::Scalar(bx(r[3].clone())), Some("m"))));
